@@ -265,7 +265,9 @@ def check(spec):
                     diverged = opname
             # the cheap clause is judged after every step so that the signature names the step that broke it
             if C.divisions_known(reported):
-                ensure(cur.npartitions == len(reported) - 1, f"after {' -> '.join(applied)}: npartitions={cur.npartitions} but divisions {short(reported)}", "npartitions-vs-divisions", op=opname)
+                # sig: the step, and whether npartitions over- or under-states the division vector
+                ensure(cur.npartitions == len(reported) - 1, f"after {' -> '.join(applied)}: npartitions={cur.npartitions} but divisions {short(reported)}", "npartitions-vs-divisions", op=opname,
+                       npartitions="more-than-divisions" if cur.npartitions > len(reported) - 1 else "fewer-than-divisions")
         if not applied:
             raise Reject("no applicable step")
         what = f"source divisions {short(ddf.divisions, 100)} -> {' -> '.join(applied)}"
